@@ -474,7 +474,12 @@ def run(rep):
                 "implementation_line": re.sub(r" nb=\S*", "", x[3])[:600], "mode": "nums"}
 
     def mk_float(cls, x, n):
-        return {"property": PROP, "kind": cls, "family": x[2], "input": x[3], "what": x[1], "mode": "floats"}
+        f = kvs(x[1].split())
+        return {"property": PROP, "kind": cls, "family": x[2], "input": x[3], "what": x[1], "mode": "floats",
+                "value": "type %s, %s bits, bytes(LE) %s" % (f.get("ty"), f.get("bits"), f.get("bytes")),
+                "exported_literal": f.get("es"), "reimported_bytes": f.get("rbytes", f.get("reimport")),
+                "note": "input pat:<type>:<bits>:<hex> = the value built from that bit pattern (ImportBytes+CastType)"
+                        if x[3].startswith("pat:") else "input is the literal first imported"}
 
     nv = len(rep.violations)
     report_classes(rep, nfails, known, mk_num)
